@@ -309,13 +309,19 @@ func (w *World) absorb() {
 				a.CurInv = d.Inv
 				a.st = "working"
 			}
-		case "rt-response", "rt-error":
+		case "rt-response", "rt-error", "rt-stalled-upload":
 			if c.Status == 202 || c.Status == 413 {
 				parts := strings.Split(c.Path, "/")
 				id := parts[len(parts)-2]
 				if a.CurInv != nil && a.CurInv.ReqID == id && a.CurInv.AnswerKind == "" {
 					a.CurInv.Answered = c.ReqBody
 					a.CurInv.AnswerKind = strings.TrimPrefix(c.Tag, "rt-")
+					if c.Tag == "rt-stalled-upload" {
+						a.CurInv.AnswerKind = "response"
+						if strings.HasSuffix(c.Path, "/error") {
+							a.CurInv.AnswerKind = "error"
+						}
+					}
 					if c.Status == 413 {
 						a.CurInv.AnswerKind = "oversize"
 					}
